@@ -356,8 +356,13 @@ CLAIMED["C05"] = dict(
          "context element, every one of the builder's sink calls - all queries, create_*, every append variant, foster "
          "parenting (append_based_on_parent_node / append_before_sibling), reparent_children, the frameset remove_from_parent, "
          "and the adoption agency's remove_from_parent + re-insertion of last_node (no cycle: a stack-order vs DOM-ancestry "
-         "invariant) - satisfies the contract at the moment it is made, and the DOM invariant of C20 holds at the end; the "
-         "XML builder's model is a zipper whose calls are contract-abiding by construction. On the real parsers the same is "
+         "invariant) - satisfies the contract at the moment it is made, and the DOM invariant of C20 holds at the end. THE XML "
+         "BUILDER (Props/C05Xml.lean): a handle-level model of xml5ever's XmlTreeBuilder (Model/XmlTBH.lean: every TreeSink "
+         "call incl. elem_name queries and parse_error with its message, every expect/unwrap as an error branch; tied to the "
+         "code by `xmltb trace` - literal comparison of the sink-call trace of the real builder fed the same tokens) is proved to "
+         "reach no panic site and to make only contract-abiding calls for EVERY token list whose tags carry no two unprefixed "
+         "non-declaration attributes of one name (C05_xml_contract; that hypothesis is what the tokenizer's finish_attribute "
+         "guarantees and is necessary: C05_xml_witness_dup_attr). On the real parsers the same is "
          "decided by the CONTRACT MONITOR for the inputs of each run and cross-checked by the model-side replay of every trace "
          "(per-call verdicts, call results and final DOM dumps identical). PROVED on the DOM side: the contract is "
          "decidable; a call within it never makes RcDom panic (every TreeSink method except the option->selectedcontent "
@@ -391,7 +396,10 @@ CLAIMED["C18"] = dict(
          "held in the traced fields at the suspension (open elements, active formatting list, head / form / context "
          "element, document) or was returned by the sink since (create_element, create_comment, get_template_contents, "
          "get_document) - the builder holds handles nowhere else, conjures none, and never obtains one from a DOM query "
-         "(C18_suspension, C18_process_token, C18_answers for Script answers, C18_finish for end()). Together with the "
+         "(C18_suspension, C18_process_token, C18_answers for Script answers, C18_finish for end()). The same for the "
+         "handle-level model of xml5ever's builder (Props/C18Xml.lean: C18_xml_suspension / _suspension_end / _all_from_sink, "
+         "no hypothesis; `held` = doc_handle, open_elems, curr_elem in trace_handles order, compared with what the real "
+         "trace_handles reports after every token - field @H of `xmltb trace`). Together with the "
          "translator theorem this is the property for the model. CHECKED AT RUN TIME on the real code (HTML and XML): "
          "a GC-simulating sink runs a collection at every chunk boundary (all 2-partitions and "
          "one-character chunkings of the document families of C05) and at every Script / EncodingIndicator return, "
